@@ -96,50 +96,17 @@ def scenario(B, case):
         if "entirely composed of zeros" not in str(e):
             raise
         annihilates_everything = True
-    post = W.snapshot()
-
-    def transform(rho, dims, pos):
-        # reference at the (common, padded) dimension of the joint state
-        O = refop(dims[pos[0]])
-        return ref.apply_op(rho, dims, pos, O)
-
     if annihilates_everything:
         # the all-zero rejection is cut after the check it guards; it is the subject of C17
         from symx.explore import Cut
 
         raise Cut("all-zero rejection (subject of C17)")
-    if case["kind"] == "fock" and case["op"] in ("Creation", "Annihilation"):
-        # compare in a space one level larger than anything the implementation chose, so that a cut-off
-        # that is too small shows up as lost population
-        _compare_with_headroom(B, W, pre, post, t, refop, renorm)
-    else:
-        checks.compare_joint(B, W, pre, post, [t], transform, "C01", renorm=renorm)
+    post = W.snapshot()
+
+    ladder = case["kind"] == "fock" and case["op"] in ("Creation", "Annihilation")
+    # ladder operators are compared in a space one level larger than anything the implementation chose, so that a
+    # cut-off that is too small shows up as lost population
+    checks.compare_joint(B, W, pre, post, [t], None, "C01", renorm=renorm,
+                         operator=lambda dims, pos: refop(dims[pos[0]]), headroom=1 if ladder else 0)
     unit = renorm or case["op"] in ("PhaseShift", "Identity")
     checks.check_wf(B, W, post, "C01/wf", unit=unit)
-
-
-def _compare_with_headroom(B, W, pre, post, t, refop, renorm):
-    from symx.world import components
-
-    comps = components(pre, post, force_together=[t])
-    for comp in comps:
-        rho0, d0 = pre.joint(comp)
-        rho1, d1 = post.joint(comp)
-        names = [W.name_of(m) for m in comp]
-        if not any(m is t for m in comp):
-            if list(d0) != list(d1):
-                rho0, rho1, _ = checks._pad_to_common(rho0, d0, rho1, d1)
-            B.require_zero([rho1 - rho0], f"C01: bystander component {names} changed", "bystander")
-            continue
-        pos = [id(m) for m in comp].index(id(t))
-        big = [max(a, b) for a, b in zip(d0, d1)]
-        big[pos] = max(d0[pos], d1[pos]) + 1
-        r0 = checks._pad(rho0, d0, big)
-        r1 = checks._pad(rho1, d1, big)
-        exp = ref.apply_op(r0, big, [pos], refop(big[pos]))
-        if renorm:
-            B.require_zero([r1 * ref.trace(exp) - exp], f"C01: joint state of {names} (ideal ladder operator)", "state-map")
-        else:
-            B.require_zero([r1 - exp], f"C01: joint state of {names} (ideal ladder operator)", "state-map")
-        if hasattr(B, "observed"):
-            B.observed["post:" + ",".join(names)] = rho1
